@@ -26,6 +26,9 @@ Donor(n) == LET cand == {m \in 1..NLay : LayoutAt(m).dec # LayoutAt(n).dec /\ Le
 VARIABLES lay, fld
 gvars == <<lay, fld, vars>>
 GInit == lay = 0 /\ fld = 0 /\ Init   \* (the protocol variables of Decode.tla are unused here)
+\* the harness implements exactly the catalogue of post-decode steps of the specification
+StepsAgree == \A i \in TargetIdx : Recs[i].steps = PostSteps(Recs[i].dec)
+IdentWellFormed == \A n \in 1..NLay : IdentOK(LayoutAt(n))
 PickLayout == lay = 0 /\ UNCHANGED vars /\ \E n \in 1..NLay : lay' = n /\ fld' = 0
 PickField == lay > 0 /\ fld = 0 /\ \E i \in FieldsOf(LayoutAt(lay), MaxFields) : fld' = i /\ UNCHANGED <<lay, vars>>
 GNext == PickLayout \/ PickField
@@ -44,6 +47,10 @@ Emit ==
     /\ (lay > 0 /\ fld = 0 =>
           PrintT(<<"PLAN", ToJson([lay |-> LayoutAt(lay).id, f |-> 1,
                                    ops |-> IF LayoutAt(lay).len <= TruncEveryMax THEN <<[op |-> "trunc_every"]>> ELSE <<>>])>>))
+    /\ (lay > 0 /\ fld = 0 /\ LayoutAt(lay).ih > 0 =>
+          PrintT(<<"PLAN", ToJson([lay |-> LayoutAt(lay).id, f |-> LayoutAt(lay).ih, ops |-> SetToSeq(IdentOps(LayoutAt(lay)))])>>))
+    /\ (lay > 0 /\ fld = 0 /\ LayoutAt(lay).pf > 0 =>
+          PrintT(<<"PLAN", ToJson([lay |-> LayoutAt(lay).id, f |-> LayoutAt(lay).pf, ops |-> SetToSeq(ProofOps(LayoutAt(lay)))])>>))
     /\ (lay > 0 /\ fld > 0 =>
           PrintT(<<"PLAN", ToJson([lay |-> LayoutAt(lay).id, f |-> fld, ops |-> SetToSeq(Ops(lay, fld))])>>))
 ==========================================================================
